@@ -140,6 +140,32 @@ def one_case(rep, cs, seed, i):
                 rep.violation("query-vs-symbolic", "the integration query differs from compiling the symbolic integrate operator",
                               {"case": desc, "sample": b, "Z": Z, "observed": got[b].tolist(), "expected": v.tolist()})
                 break
+    # ---- the SAME query object after in-place parameter updates (training step, load_state_dict, reset) ----
+    try:
+        from props.C02 import prob_leaves, tensor_leaves
+        state = ctx._compiler.state
+        keep = set()
+        frozen = prob_leaves([sc])
+        for p_ in tensor_leaves([sc]):
+            if id(p_) in frozen and state.has_compiled_parameter(p_):
+                keep.add(state.retrieve_compiled_parameter(p_)[0]._ptensor.data_ptr())
+        with torch.no_grad():
+            seen = set(keep)
+            for p in cc.parameters():
+                if p.requires_grad and p.data_ptr() not in seen:
+                    seen.add(p.data_ptr())
+                    p.add_(torch.tensor(gen.dy(rng, 1, 3, 16), dtype=p.dtype))
+        got2 = evalc.to_linear(q(x, integrate_vars=[Scope(Z) for Z in Zs]), sem)
+        exp2 = [brute(cc, sc, y, Z, g.doms, sem, w) for y, Z in zip(ys, Zs)]
+        if all(e is not None for e in exp2) and np.all(np.isfinite(got2)):
+            tol = 1e-5 if style == "gau" else 1e-7
+            if not close(got2, np.array(exp2), rtol=tol, atol=tol * 0.01):
+                rep.violation("query-stale-after-update", "after an in-place parameter update the same IntegrateQuery object no longer returns the marginal of the (updated) circuit",
+                              {"case": desc, "inputs": ys, "observed": got2.tolist(), "expected": np.array(exp2).tolist()})
+    except Exception as e:
+        rep.violation("query-exception:" + type(e).__name__, "the integration query raised after a parameter update",
+                      {"case": desc, "exception": repr(e)[:300], "traceback": traceback.format_exc()[-1500:]})
+        return
     # ---- correspondence: per sample, query = den (integrate_m Z c) at the sample ----
     if style == "bin" or not np.all(np.isfinite(got)):
         return
